@@ -31,7 +31,8 @@ RULE = ("job = seed -> scenario (version x flavour x options incl. client "
         " The exhaustive grid also inserts copies (byte snapshots) of the peer's own first messages and a PROTECTED change_cipher_spec; abort-point oracle: after the first out-of-place message the victim may only send a fatal alert (a warning alert followed by carrying on is a violation)."
         ' Further inserted / replacing records: warning alert no_certificate, empty application_data; scenarios "certificate requested, client has none" and a 0-RTT offering client negotiated down to TLS 1.2 (early-data window).'
         ' prot_ccs_pad: protected CCS carrying TLS 1.3 record padding.'
-        " The victim's transport may fail (timeout / EPIPE / reset) exactly while it writes its fatal alert.")
+        " The victim's transport may fail (timeout / EPIPE / reset) exactly while it writes its fatal alert."
+        " Family merge: the message that belongs after the first TLS 1.3 key change is packed, unprotected, into the record of the peer's hello (transcript unchanged).")
 LEVEL_TEXT = ("Seeded search over single deviations of every message index of "
               "the drawn handshake flavours; the legality table is written "
               "from the RFCs (ambiguous cases yield no verdict), the peer's "
@@ -47,7 +48,8 @@ PROBES = ["skip", "dup", "swap", "insert", "replace", "append",
           "reneg_hello_request", "second_handshake_call", "victim_client",
           "victim_server", "tls13", "legacy", "early_appdata", "early_ccs",
           "illegal_rejected", "legal_accepted", "wrong_epoch",
-          "protected_ccs", "alert_write_fault"]
+          "protected_ccs", "alert_write_fault",
+          "merged_across_key_change"]
 COMPONENTS_REAL = ["tlslite handshake state machines of both roles, "
                    "_getMsg expected-type logic, Defragmenter"]
 COMPONENTS_STUB = ["socket", "os.urandom", "clock",
@@ -94,6 +96,12 @@ def grid_jobs(base_seed):
 def plan(tier, base_seed):
     n = {"quick": 1500, "thorough": 400000}[tier]
     jobs = grid_jobs(base_seed)
+    from checks import c17
+    for si in range(len(c17.SCENARIOS)):
+        if c17.SCENARIOS[si]["version"] == [3, 4]:
+            for victim in (0, 1):
+                jobs.append({"seed": base_seed * 1000003 + si, "fam": "merge",
+                             "grid": si, "preset": {"cfg.victim": [victim]}})
     for i in range(n):
         fam = "reneg" if i % 10 == 9 else "dev"
         jobs.append({"seed": base_seed * 1000003 + i, "fam": fam})
@@ -266,6 +274,9 @@ def run(job, streams=None):
 
     if job["fam"] == "reneg":
         return run_reneg(job, ch, seed, sc, victim, pname, v, viol, probes,
+                         captured, op_gen, ctxfull)
+    if job["fam"] == "merge":
+        return run_merge(job, ch, seed, sc, victim, pname, v, viol, probes,
                          captured, op_gen, ctxfull)
 
     # ---- draw a deviation
@@ -538,6 +549,60 @@ def run(job, streams=None):
               "data that was sent inside the handshake")
     return _res(job, ch, sim, sc, viol, probes, verdict,
                 repr((oc.sig(), os_.sig(), dev)), dev)
+
+
+def run_merge(job, ch, seed, sc, victim, pname, v, viol, probes, captured,
+              op_gen, ctxfull):
+    """Wrong epoch by packing: the peer puts the message that belongs AFTER a
+    key change into the same (unprotected) record as its hello.  Its own
+    transcript stays consistent (same messages, same order)."""
+    from tlslite.messages import Message
+    sim, pair, peer, vic, ip, mt = build(seed, sc, ch, victim, [])
+    names = [type(m).__name__ for m in captured]
+    first = "ServerHello" if pname == "s" else "ClientHello"
+    k = max([i for i, n in enumerate(names) if n == first] or [-1])
+    if k < 0 or k + 1 >= len(captured) or tuple(sc["version"]) != (3, 4):
+        return _res(job, ch, sim, sc, viol, probes, False, "merge_na", None)
+    nxt = captured[k + 1]
+    if getattr(nxt, "contentType", 22) != 22:
+        # (compatibility CCS in between: take the message after it)
+        if k + 2 >= len(captured):
+            return _res(job, ch, sim, sc, viol, probes, False, "merge_na",
+                        None)
+        nxt = captured[k + 2]
+    nxt_name = type(nxt).__name__
+    nxt_bytes = bytes(nxt.write())
+    state = {"hello_seen": 0, "done": False}
+    want_hello = names.count(first)
+
+    def rule(msg, c):
+        n = type(msg).__name__
+        if n == first:
+            state["hello_seen"] += 1
+            if state["hello_seen"] == want_hello:
+                state["done"] = True
+                return [byz.MergedRecord(msg, nxt_bytes)]
+            return None
+        if state["done"] and n == nxt_name and not state.get("dropped"):
+            # already on the wire with the hello; it enters the sender's
+            # transcript here, at its proper place
+            state["dropped"] = True
+            c.conn._handshake_hash.update(bytearray(nxt_bytes))
+            return []
+        return None
+    ip.rules.append(rule)
+    oc, os_, st = pair.handshake()
+    vo = oc if victim == "c" else os_
+    probes["merged_across_key_change"] = 1
+    ctxfull[0] = ctxfull[0][:-1] + " merge=%s+%s]" % (first, nxt_name)
+    if state.get("dropped") and vo.kind == "ok":
+        v("illegal_sequence_accepted", "merge|%s|%s|tls13" % (first,
+                                                              nxt_name),
+          "victim completed the handshake although %s travelled unprotected "
+          "in the record of the %s (it belongs to the next key epoch)" %
+          (nxt_name, first))
+    return _res(job, ch, sim, sc, viol, probes, bool(state.get("dropped")),
+                "merge", {"merge": [first, nxt_name]})
 
 
 def run_reneg(job, ch, seed, sc, victim, pname, v, viol, probes, captured,
